@@ -503,6 +503,48 @@ fn display_into(sink: &mut dyn fmt::Write, sh: &Shown, spec: &Spec) -> Outcome {
     }
 }
 
+/// The display is made by a `Drop` that runs while the thread unwinds from a panic
+/// of the caller (which the caller catches): `std::thread::panicking()` is true
+/// while the library formats. A panic inside the display is caught inside the
+/// destructor, so it does not turn into an abort.
+fn display_while_unwinding(sink: &mut dyn fmt::Write, sh: &Shown, spec: &Spec) -> Outcome {
+    struct Guard<'a> {
+        sink: &'a mut dyn fmt::Write,
+        sh: &'a Shown,
+        spec: &'a Spec,
+        out: &'a mut Option<Outcome>,
+    }
+    impl Drop for Guard<'_> {
+        fn drop(&mut self) {
+            *self.out = Some(display_into(self.sink, self.sh, self.spec));
+        }
+    }
+    let mut out = None;
+    let _ = catch_unwind(AssertUnwindSafe(|| {
+        let _g = Guard { sink, sh, spec, out: &mut out };
+        panic!("simulated panic of the caller: a value is displayed while the thread unwinds");
+    }));
+    out.unwrap_or_else(|| Outcome::Panic("the display did not run".into()))
+}
+
+// ----------------------------------------------------------- thread-exit hook
+
+/// A thread-local object of the caller whose destructor displays a value at thread
+/// exit. It is initialised when the caller thread starts, i.e. before any
+/// thread-local the library may create on its first display, so those are
+/// destroyed first.
+struct ExitHook(Option<Box<dyn FnOnce()>>);
+impl Drop for ExitHook {
+    fn drop(&mut self) {
+        if let Some(f) = self.0.take() {
+            f();
+        }
+    }
+}
+thread_local! {
+    static EXIT_HOOK: std::cell::RefCell<ExitHook> = const { std::cell::RefCell::new(ExitHook(None)) };
+}
+
 // --------------------------------------------------------------------- oracle
 
 fn judge(sh: &Shown, spec: &Spec, out: &Outcome, text: &str) -> Option<(String, String, String)> {
@@ -571,7 +613,11 @@ fn run_op(sched: &Sched, me: usize, idx: usize, op: &Op, alloc_seams: bool, lean
     if alloc_seams && !sched.free {
         ALLOC_SEAM.with(|c| c.set((sched as *const Sched, me)));
     }
-    let out = display_into(&mut sink, &sh, &op.spec);
+    let out = if op.mode == 1 {
+        display_while_unwinding(&mut sink, &sh, &op.spec)
+    } else {
+        display_into(&mut sink, &sh, &op.spec)
+    };
     ALLOC_SEAM.with(|c| c.set((std::ptr::null(), 0)));
     let mut violations = Vec::new();
     let mut judged = 0;
@@ -605,6 +651,16 @@ fn run_op(sched: &Sched, me: usize, idx: usize, op: &Op, alloc_seams: bool, lean
             }
         }
     }
+    // `to_string()` called on the value itself (an inherent method would shadow the blanket
+    // `ToString`): it must give the same text as a plain display
+    if op.spec.is_plain() {
+        if let (Some(t), Some(e)) = (&sh.to_string, &sh.expect) {
+            judged += 1;
+            if t != e {
+                violations.push(mk(false, &sh, &op.spec, ("to_string".into(), e.clone(), t.clone())));
+            }
+        }
+    }
     let mut nested_line = String::new();
     let nested = sink.nested.is_some();
     if let Some((nout, ntext, nsh, nspec)) = &sink.nested {
@@ -619,8 +675,8 @@ fn run_op(sched: &Sched, me: usize, idx: usize, op: &Op, alloc_seams: bool, lean
             String::new()
         } else {
             format!(
-            "t{} op{} {} {} -> {:?} writes={} fault={:?} text={:?}{}",
-            me, idx, sh.describe, op.spec.literal(), out, sink.writes, sink.fault_fired, sink.text, nested_line
+            "t{} op{}{} {} {} -> {:?} writes={} fault={:?} text={:?}{}",
+            me, idx, ["", "(unwinding)", "(at thread exit)"][op.mode.min(2) as usize], sh.describe, op.spec.literal(), out, sink.writes, sink.fault_fired, sink.text, nested_line
             )
         },
         violations,
@@ -644,17 +700,25 @@ pub fn execute_mode(plan: &Plan, free: bool) -> RunResult {
         st.current = first;
     }
     let mut handles = Vec::new();
+    let late: Arc<Mutex<Vec<(usize, OpRecord)>>> = Arc::new(Mutex::new(Vec::new()));
     let alloc_seams = plan.alloc_seams;
     let (lean, repeat) = (plan.lean, plan.repeat.max(1));
     for (me, ops) in plan.threads.iter().cloned().enumerate() {
         let sched = Arc::clone(&sched);
+        let late = Arc::clone(&late);
         handles.push(std::thread::spawn(move || {
+            // the caller's thread-local object exists before the library has displayed anything
+            EXIT_HOOK.with(|h| h.borrow_mut().0 = None);
             sched.start(me);
             let mut recs = Vec::new();
             let mut lean_sum = (0u64, 0u64);
             let mut kinds: Vec<(String, u32)> = Vec::new();
+            let at_exit = if !free && !lean && ops.last().map(|o| o.mode == 2).unwrap_or(false) { ops.len() - 1 } else { usize::MAX };
             for rep in 0..repeat {
                 for (i, op) in ops.iter().enumerate() {
+                    if i == at_exit {
+                        continue;
+                    }
                     sched.seam(me, false);
                     let rec = run_op(&sched, me, rep as usize * ops.len() + i, op, alloc_seams, lean);
                     if lean {
@@ -683,15 +747,36 @@ pub fn execute_mode(plan: &Plan, free: bool) -> RunResult {
                     }
                 }
             }
-            sched.finish(me);
+            if at_exit != usize::MAX {
+                // the last display is made by the thread-local's destructor when the thread
+                // exits; the thread keeps its place in the schedule until then
+                let (sched, op) = (Arc::clone(&sched), ops[at_exit].clone());
+                EXIT_HOOK.with(|h| {
+                    h.borrow_mut().0 = Some(Box::new(move || {
+                        sched.seam(me, false);
+                        let rec = run_op(&sched, me, at_exit, &op, alloc_seams, false);
+                        late.lock().unwrap().push((me, rec));
+                        sched.finish(me);
+                    }))
+                });
+            } else {
+                sched.finish(me);
+            }
             (recs, lean_sum)
         }));
     }
     let mut stats = RunStats::default();
     let mut violations = Vec::new();
     let mut log = Vec::new();
-    for h in handles {
-        let (recs, lean_sum) = h.join().expect("simulated caller thread died outside an operation");
+    for (thread_no, h) in handles.into_iter().enumerate() {
+        let (mut recs, lean_sum) = h.join().expect("simulated caller thread died outside an operation");
+        {
+            // the display made at thread exit (the thread has been joined, so it has happened)
+            let mut l = late.lock().unwrap();
+            while let Some(pos) = l.iter().position(|(t, _)| *t == thread_no) {
+                recs.push(l.remove(pos).1);
+            }
+        }
         stats.judged += lean_sum.0;
         stats.ops += lean_sum.1;
         let mut faulted_before = false;
